@@ -54,6 +54,7 @@ func (t *dbTracker) add(r *dbResource) {
 	defer t.mu.Unlock()
 
 	t.resources[r] = struct{}{}
+	verifEv("register", r.table, r, nil)
 }
 
 func (t *dbTracker) remove(r *dbResource) {
@@ -68,8 +69,10 @@ func (t *dbTracker) processBinlog(update *update) {
 	t.mu.Lock()
 	defer t.mu.Unlock()
 
+	verifEv("deliver", update.table, len(update.deltas), update.err != nil)
 	for q := range t.resources {
 		if q.shouldInvalidate(update) {
+			verifEv("invalidate", q.table, q, nil)
 			q.resource.Invalidate()
 		}
 	}
